@@ -28,6 +28,12 @@ use alpenglow::shredder::{RegularShredder, Shred, Shredder, TOTAL_SHREDS};
 use alpenglow::types::slice::create_slice_with_invalid_txs;
 use alpenglow::types::Slot;
 use alpenglow::{Stake, ValidatorIndex, ValidatorInfo};
+use alpenglow::all2all::TrivialAll2All;
+use alpenglow::consensus::{Alpenglow, ConsensusMessage};
+use alpenglow::network::UdpNetwork;
+use alpenglow::repair::{RepairRequest, RepairResponse};
+use alpenglow::types::{Slice, SliceIndex};
+use alpenglow::Transaction;
 
 // ---------------------------------------------------------------- recording network
 
@@ -101,7 +107,7 @@ impl Env {
         let slice = create_slice_with_invalid_txs(200);
         let shreds = RegularShredder::default().shred(&slice, &sk).expect("shred");
         let template = shreds[0].as_shred().clone();
-        Env { rt: tokio::runtime::Builder::new_current_thread().build().expect("rt"), template, pk: sk.to_pk(), vpk: vsk.to_pk() }
+        Env { rt: tokio::runtime::Builder::new_current_thread().enable_all().build().expect("rt"), template, pk: sk.to_pk(), vpk: vsk.to_pk() }
     }
     fn validators(&self, stakes: &[u64]) -> Vec<ValidatorInfo> {
         stakes
@@ -463,6 +469,72 @@ fn trivial_case(cx: &mut Ctx, st: &[u64], slot: u64) {
     cx.rec.end_case(fnv(0, &format!("triv{n}")), n >= 2);
 }
 
+/// The receive path of a real node (`Alpenglow::handle_disseminator_shred`, single-stepped through the verif hook)
+/// must hand every authentic shred to `Disseminator::forward` — also when the node is the slot's leader and was
+/// sampled as relay for its own shred — so that the loss-free run of the forwarding tables is what nodes really do.
+/// Oracle: for every shred of a leader-signed slice, the addresses the node's disseminator sends to equal those of
+/// a bare `forward` on an independently built instance of the same validator.
+fn node_glue_case(cx: &mut Ctx, rng: &mut Rng, own: usize, n: usize) {
+    let env = cx.env;
+    cx.rec.begin_case(&format!("node-glue own={own} n={n}"));
+    let sks: Vec<signature::SecretKey> = (0..n).map(|_| signature::SecretKey::new(rng)).collect();
+    let vsks: Vec<aggsig::SecretKey> = (0..n).map(|_| aggsig::SecretKey::new(rng)).collect();
+    let validators: Vec<ValidatorInfo> = (0..n)
+        .map(|i| ValidatorInfo {
+            id: ValidatorIndex::new(i as u64),
+            stake: Stake::new(1 + (i as u64 % 3)),
+            pubkey: sks[i].to_pk(),
+            voting_pubkey: vsks[i].to_pk(),
+            all2all_address: addr_of(i),
+            disseminator_address: addr_of(i),
+            repair_requester_address: addr_of(i),
+            repair_responder_address: addr_of(i),
+        })
+        .collect();
+    let epoch = EpochInfo::new(validators.clone());
+    let vei = Arc::new(ValidatorEpochInfo::new(ValidatorIndex::new(own as u64), epoch.clone()));
+    let net_node = RecNet::default();
+    let net_ref = RecNet::default();
+    let (node, reference) = {
+        let _g = env.rt.enter();
+        let a2a: UdpNetwork<ConsensusMessage, ConsensusMessage> = UdpNetwork::new_with_any_port();
+        let rq: UdpNetwork<RepairRequest, RepairResponse> = UdpNetwork::new_with_any_port();
+        let rp: UdpNetwork<RepairResponse, RepairRequest> = UdpNetwork::new_with_any_port();
+        let txs: UdpNetwork<Transaction, Transaction> = UdpNetwork::new_with_any_port();
+        let node = Alpenglow::new(sks[own].clone(), vsks[own].clone(), TrivialAll2All::new(validators.clone(), a2a), Rotor::new(net_node.clone(), vei.clone()), rq, rp, vei.clone(), txs);
+        (node, Rotor::new(net_ref.clone(), vei.clone()))
+    };
+    // two slots: one led by the node itself, one led by somebody else
+    let mut slots = Vec::new();
+    let mut s = 4 + rng.below(1 << 16);
+    while slots.len() < 2 {
+        let l = epoch.leader(Slot::new(s)).id.as_usize();
+        if (slots.is_empty() && l == own) || (slots.len() == 1 && l != own) { slots.push((s, l)); }
+        s += 1;
+    }
+    let mut class = 0u64;
+    for (slot, leader) in slots {
+        let slice_index: SliceIndex = wincode::deserialize(&(rng.below(3)).to_le_bytes()).expect("slice index");
+        let slice = Slice { slot: Slot::new(slot), slice_index, is_last: false, parent: None, data: (0..200u64).map(|i| (i * 7 + slot) as u8).collect() };
+        let shreds = RegularShredder::default().shred(&slice, &sks[leader]).expect("fits").to_vec();
+        let mut relayed_by_own = 0;
+        for v in shreds.iter() {
+            let sh = v.as_shred().clone();
+            let want = env.call(&reference, &net_ref, &sh, true);
+            net_node.log.lock().unwrap().clear();
+            let r = catch(|| env.rt.block_on(node.verif_handle_disseminator_shred(sh.clone())));
+            let got: Vec<usize> = net_node.log.lock().unwrap().drain(..).map(|a| idx_of(&a)).collect();
+            let got = match r { Ok(Ok(())) => Out::To(got), Ok(Err(e)) => Out::Panic(format!("io error {e}")), Err(m) => Out::Panic(m) };
+            if !want.dests().is_empty() { relayed_by_own += 1; }
+            let (_, sl, ix) = shred_position(&sh);
+            cx.rec.oracle(got == want, "node-receive-path-does-not-forward", || format!("node {own} of {n} (leader of slot {slot}: {leader}) handling shred (slot {slot}, slice {sl}, index {ix}) from the disseminator sent to {} but Disseminator::forward of the same validator sends to {}", got.line(), want.line()));
+            class = fnv(class, &want.line());
+        }
+        cx.rec.count(&format!("node-glue:own-is-leader={}:relayed-by-own>0={}", leader == own, relayed_by_own > 0));
+    }
+    cx.rec.end_case(class, true);
+}
+
 fn main() {
     let args = Args::parse();
     quiet_panics();
@@ -543,5 +615,10 @@ fn main() {
     }
 
     let extra = serde_json::json!({ "validator_counts": ns, "fanouts": fanouts });
+    // ---- the node's receive path really forwards (also the leader's own shreds)
+    for k in 0..(if args.thorough { 12 } else { 4 }) {
+        let n = [4usize, 5, 7, 3][k % 4];
+        node_glue_case(&mut cx, &mut rng, k % n, n);
+    }
     cx.rec.finish(&args, extra);
 }
